@@ -33,8 +33,8 @@ BOUNDS = {
     "thorough": {"n_sweep_1d": 260, "n_sweep_2d_sqrt": 24, "hist_n": [1, 2, 3, 4, 5, 6, 8, 9], "keys": 3, "x64": True},
 }
 
-DOMS = [[0.0, 1.0], [-1.0, 1.0], [0.5, 2.0], [-3.0, -1.0], [0.1, 0.7]]
-BOXES = [([-1.0, 0.0], [2.0, 1.0]), ([0.5, -3.0], [2.0, -1.0]), ([0.1, 0.0], [0.7, 5.0])]
+DOMS = [[0.0, 1.0], [-1.0, 1.0], [0.5, 2.0], [-3, -1], [0.1, 0.7]]  # one domain given with integer bounds (as the test-suite does)
+BOXES = [([-1.0, 0.0], [2.0, 1.0]), ([0.5, -3], [2.0, -1]), ([0.1, 0.0], [0.7, 5.0])]
 
 
 def cases(tier, seed):
